@@ -535,16 +535,30 @@ def read_header(filename):
 """
     from .common import agree_ref
     rhf = ctx.func(RU + 'read_header')
-    (rA, IA), (rB, IB) = agree_ref(ctx, rhf, REF_READ_HEADER, 'read_header: 80-byte cards are collected until the card that is exactly '
-                                   'END padded to 80 columns', what=('substores', 'loopstores'))
-    la = [e for e in IA.events if e.kind == 'loop']
-    lb = [e for e in IB.events if e.kind == 'loop']
-    if len(la) == 1 and len(lb) == 1 and la[0].data['info'].get('cond') is not None:
-        ctx.formula('AGREE', 'read_header stops at the END card (the whole 80-column card, not a prefix match)', rhf,
-                    la[0].data['info']['cond'], lb[0].data['info']['cond'], node=la[0].node, construct='while <END card not seen>')
+    r0, I0 = ctx.run(rhf)
+    END80 = b'END' + b' ' * 77
+    sentinels = [a for a in T.all_atoms(r0.ret).values() if a.kind == 'call' and a.args[0] == 'iter_until'] if r0.ret is not None else []
+    if not [e for e in I0.events if e.kind == 'loop'] and sentinels:
+        # written as a sentinel iteration  iter(<read one card>, <END card>): the loop is numpy's, not a statement -- the card-by-
+        # card comparison with the reference loop does not apply; what is decided is the sentinel itself (the WHOLE 80-column END
+        # card, compared for equality with an 80-byte record) and, below, the record size
+        sa_ = sentinels[0].args[1][1].single_atom()
+        ok_s = sa_ is not None and ((sa_.kind == 'bytes' and sa_.args[0] == END80) or (sa_.kind == 'str' and sa_.args[0] == END80.decode()))
+        ctx.ob('AGREE', 'read_header stops at the END card (the whole 80-column card, not a prefix match)', rhf, ok_s,
+               {'sentinel': pretty(sentinels[0].args[1][1])[:120]}, node=rhf.node, construct='iter(<read card>, <END card>)')
+        ctx.ob('AGREE', 'read_header: cards are collected by a sentinel iteration (not comparable statement by statement with the '
+               'reference loop)', rhf, None, {'returned': pretty(r0.ret)[:200]}, node=rhf.node, construct='read_header [sentinel form]')
     else:
-        ctx.ob('AGREE', 'read_header iterates over cards with one loop', rhf, False, {'loops': [e.text()[:60] for e in la]},
-               node=rhf.node, construct='read_header loop')
+        (rA, IA), (rB, IB) = agree_ref(ctx, rhf, REF_READ_HEADER, 'read_header: 80-byte cards are collected until the card that is '
+                                       'exactly END padded to 80 columns', what=('substores', 'loopstores'))
+        la = [e for e in IA.events if e.kind == 'loop']
+        lb = [e for e in IB.events if e.kind == 'loop']
+        if len(la) == 1 and len(lb) == 1 and la[0].data['info'].get('cond') is not None:
+            ctx.formula('AGREE', 'read_header stops at the END card (the whole 80-column card, not a prefix match)', rhf,
+                        la[0].data['info']['cond'], lb[0].data['info']['cond'], node=la[0].node, construct='while <END card not seen>')
+        else:
+            ctx.ob('AGREE', 'read_header iterates over cards with one loop', rhf, False, {'loops': [e.text()[:60] for e in la]},
+                   node=rhf.node, construct='read_header loop')
     rh = ctx.func(RU + 'read_header')
     r, I = ctx.run(rh)
     reads = ctx.calls(I, name='.read')
